@@ -95,6 +95,13 @@ POSITIONS = {
     "units": lambda c: HEAD + f"k = 1 <a{c}b>\nEND\n",
     "between": lambda c: HEAD + f"k = 1\n {c}\nj = 2\nEND\n",
     "after-END": lambda c: HEAD + f"k = 1\nEND\n{c} trailing",
+    # glued to a comment (no white space in between)
+    "glued-after-comment": lambda c: HEAD + f"/* c */{c}b = 1\nEND\n",
+    "glued-after-comment-value": lambda c: HEAD + f"k = /* c */{c}\nj = 2\nEND\n",
+    "glued-before-comment": lambda c: HEAD + f"k = 1{c}/* c */\nEND\n",
+    # swallowed by a dash continuation?  (default loader machinery, strict grammar)
+    "after-dash-continuation": lambda c: HEAD + f"k = b-\n{c} c = 1\nEND\n",
+    "after-END-glued": lambda c: HEAD + f"k = 1\nEND{c} trailing",
     "lone-line-end": lambda c: HEAD + f"k = 1 {c}\nEND\n",
     # inside a lexeme that spans lines, on a later line than its first character
     "quoted-2nd-line": lambda c: HEAD + f'k = "first line\n  second {c} line"\nEND\n',
@@ -125,7 +132,8 @@ for _i in range(1, len(GAP_TOKENS)):
 QUOTED_SHAPES = {"quoted": "a{}b", "quoted-first": "{}ab", "quoted-last": "ab{}",
                  "quoted-only": "{}"}
 BASIC_SET = {"name", "unquoted", "quoted", "quoted-first", "quoted-last", "quoted-only",
-             "comment", "units", "between", "after-END",
+             "after-END-glued", "glued-after-comment", "glued-after-comment-value",
+             "glued-before-comment", "after-dash-continuation", "comment", "units", "between", "after-END",
              "lone-line-end", "quoted-2nd-line", "comment-3rd-line", "units-2nd-line"}
 GAP_EXTRA = {0x100, 0x17F, 0x3B1, 0x2028, 0x20AC, 0xD7FF, 0xD800, 0xDFFF, 0xE000, 0xFEFF,
              0xFFFF, 0x10000, 0x1F600, 0x10FFFF}
@@ -149,6 +157,10 @@ def check_one(cfg, posname, o):
     idx = text.index(c, len(HEAD)) if c in text[len(HEAD):] else None
     gname = cfg.split("-")[0]
     ok_char = allowed(gname, o)
+    if posname == "after-END-glued":
+        if ok_char:
+            return None     # 'END' + a character of the set is another word, not END
+        posname = "after-END"
     try:
         m = run_load(cfg, text)
         outcome = ("module", m)
